@@ -15,7 +15,7 @@ IDS=${@:-$(ls $DIR | grep -v RESULTS)}
 for id in $IDS; do
   [ -f $DIR/$id/patch.diff ] || continue
   prop=${id%%-*}
-  git -C $WT checkout -q -- . ; git -C $WT clean -qfd
+  git -C $WT reset -q --hard HEAD; git -C $WT clean -qfd
   if ! git -C $WT apply $PWD/$DIR/$id/patch.diff 2>/dev/null && ! git -C $WT apply -3 $PWD/$DIR/$id/patch.diff 2>/dev/null; then echo "$id NOAPPLY"; echo "{\"id\":\"$id\",\"result\":\"patch does not apply at HEAD\"}" > $ALT/$id.json; continue; fi
   t0=$(date +%s)
   out=$(VERIF_REPO=$WT VERIF_OUT=$ALT VERIF_NO_DETERMINISM=1 VERIF_BUDGET_S=${MUT_BUDGET_S:-25} ./check $prop quick 2>/dev/null | grep -E '^VIOLATION|class=|quick:' | grep -v KNOWN)
